@@ -286,6 +286,10 @@ impl Property for C04 {
                                     return out;
                                 }
                             }
+                            Some(_) if matches!(real.vars.get(i), Some(Some(vs)) if vs.contains_key(name)) => {
+                                // the crate read a variable of this name (see above)
+                                out.class("name-is-a-variable-for-the-crate");
+                            }
                             Some(zx) => {
                                 out.fail(
                                     "c04:zx-read-yields-a-row",
